@@ -71,7 +71,7 @@ def run(ctx):
         ctx.rule("king-generator" + sfx)
         movegen.check_king_generator(ctx, f, L)
         ctx.rule("panic-audit" + sfx)
-        a = panics.Audit(f, tgens={"P": list(movegen.SLIDER_TYPES.values())}).run(roots())
+        a = panics.Audit(f, tgens={movegen.tparam(f): list(movegen.slider_types(f).values())}).run(roots())
         ctx.analysed += a.analysed[:60]
         n = panics.report(ctx, a, PANIC_TABLE, "panic")
         ctx.floor("panic sites audited", n, 30)
